@@ -141,8 +141,24 @@ fn cq(x: &mut Exec) -> Res {
     let err = Arc::new(std::sync::Mutex::new(None::<String>));
     let (e2, evs2) = (err.clone(), evs.clone());
     let rs = removed_seen.clone();
+    let guard_spins: Vec<u64> = (0..arms).map(|_| if x.rng.chance(1, 2) { x.rng.below(6000) } else { 0 }).collect();
     x.spawn("poller", poller_co, move |a| {
         let ended = Arc::new(AtomicUsize::new(0));
+        // what a select coroutine *captured* is released after its EventSender (a parameter) is dropped, i.e. after its
+        // final event: a guard among the captures that looks at the enclosing frame must still find it alive
+        let frame_alive = Arc::new(AtomicUsize::new(1));
+        let late_guards = Arc::new(AtomicUsize::new(0));
+        struct Captured(Arc<AtomicUsize>, Arc<AtomicUsize>, u64);
+        impl Drop for Captured {
+            fn drop(&mut self) {
+                for _ in 0..self.2 {
+                    std::hint::spin_loop();
+                }
+                if self.0.load(SeqCst) == 0 {
+                    self.1.fetch_add(1, SeqCst);
+                }
+            }
+        }
         let tops: Arc<Vec<AtomicUsize>> = Arc::new((0..arms).map(|_| AtomicUsize::new(0)).collect());
         let bots: Arc<Vec<AtomicUsize>> = Arc::new((0..arms).map(|_| AtomicUsize::new(0)).collect());
         let mut got = vec![0usize; arms];
@@ -161,6 +177,7 @@ fn cq(x: &mut Exec) -> Res {
                     let rm = remove_arm == Some(arm);
                     let wait_removed = pa && remove_arm.is_some();
                     let rs2 = rs.clone();
+                    let captured = Captured(frame_alive.clone(), late_guards.clone(), guard_spins[arm]);
                     // the silent arm of the forever mode blocks on a channel nobody sends to: no timer, no hook
                     // hit, so a poller that is not woken leaves the runtime quiescent
                     let quiet = if silent_arm == Some(arm) { Some(quiet_rx.take().unwrap()) } else { None };
@@ -172,6 +189,7 @@ fn cq(x: &mut Exec) -> Res {
                             }
                         }
                         let _e = End(ended.clone());
+                        let _c = &captured;
                         for j in 0..n {
                             coroutine::sleep(Duration::from_micros(r.below(400)));
                             tops[arm].fetch_add(1, SeqCst);
@@ -252,7 +270,14 @@ fn cq(x: &mut Exec) -> Res {
                 }
             })
         }));
+        // the scope is left: its frame is gone
+        frame_alive.store(0, SeqCst);
+        // (a late guard needs a moment to get to its check)
+        nap(400);
         let mut e = e2.lock().unwrap();
+        if late_guards.load(SeqCst) != 0 {
+            *e = Some(format!("cqueue scope was left while {} select coroutine(s) were still releasing what they had captured (their guards found the enclosing frame gone)", late_guards.load(SeqCst)));
+        }
         if finished_early {
             *e = Some("poll returned Finished before every select coroutine had ended".into());
         }
